@@ -832,6 +832,11 @@ func (w *worker) Run(ctx context.Context, req taskRunRequest, reply *taskRunRepl
 	}
 	task.state = TaskRunning
 	task.Unlock()
+	// Start from an empty scope, as the local executor does: the task may
+	// have run on this worker before (its result was discarded or lost, or
+	// an earlier attempt failed part-way), and the metrics of a task are
+	// those of the run that produced its output, not the sum over attempts.
+	task.Scope.Reset(nil)
 	// Gather inputs from the bigmachine cluster, dialing machines
 	// as necessary.
 	var (
